@@ -220,13 +220,16 @@ pub fn run(ctx: &Ctx) -> Report {
             let off = if r % 2 == 0 { 2 } else { 1 };
             (prefix.iter().enumerate().map(|(k, v)| z(k, v)).collect::<Vec<In>>(), suffix_ext.iter().enumerate().map(|(k, v)| z(k + off, v)).collect::<Vec<In>>())
         } else if !bars && r % 5 == 4 {
-            let shift = level * 40.0;
-            let f = |v: &In| match v {
-                In::S(x) => In::S(if (x - shift).abs() < 0.02 * shift { 0.0 } else { x - shift }),
+            // shifted down so that signs mix, with an exact zero at every fifth position (+0.0 and -0.0 in
+            // turn): a zero is an input like any other and occupies a slot of the window
+            let shift = level * 3.0;
+            let f = |k: usize, v: &In| match v {
+                In::S(x) => In::S(if k % 5 == 2 { if k % 10 == 2 { 0.0 } else { -0.0 } } else if (x - shift).abs() < 0.02 * shift { 0.0 } else { x - shift }),
                 b => *b,
             };
             rep.count("pairs.mixed_sign_with_zeros");
-            (prefix.iter().map(f).collect::<Vec<In>>(), suffix_ext.iter().map(f).collect::<Vec<In>>())
+            let off = if r % 2 == 0 { 2 } else { 0 };
+            (prefix.iter().enumerate().map(|(k, v)| f(k, v)).collect::<Vec<In>>(), suffix_ext.iter().enumerate().map(|(k, v)| f(k + off, v)).collect::<Vec<In>>())
         } else {
             (prefix, suffix_ext)
         };
